@@ -47,7 +47,99 @@ type SpecCase struct {
 	Op2  string `json:"op2"`
 	Addr int    `json:"addr"`
 	Off  int    `json:"off"`
+	// kind "ctl" (WasmCtl.tla): a statement tree and its specified result for the arguments 0, 1, 2
+	Prog  []CtlStmt         `json:"prog"`
+	Cases map[string]CtlRes `json:"cases"`
 }
+
+type CtlRes struct {
+	Trap string `json:"trap"`
+	V    int64  `json:"v"`
+}
+
+type CtlExpr struct {
+	E string   `json:"e"`
+	X string   `json:"x"`
+	V int64    `json:"v"`
+	L *CtlExpr `json:"l"`
+	R *CtlExpr `json:"r"`
+}
+
+type CtlStmt struct {
+	S    string    `json:"s"`
+	X    string    `json:"x"`
+	E    *CtlExpr  `json:"e"`
+	K    int       `json:"k"`
+	Ks   []int     `json:"ks"`
+	D    int       `json:"d"`
+	Body []CtlStmt `json:"body"`
+	Th   []CtlStmt `json:"th"`
+	El   []CtlStmt `json:"el"`
+}
+
+func (e *CtlExpr) wat(sb *strings.Builder, ind string) {
+	switch e.E {
+	case "get":
+		fmt.Fprintf(sb, "%slocal.get $%s\n", ind, e.X)
+	case "const":
+		fmt.Fprintf(sb, "%si32.const %d\n", ind, e.V)
+	case "eqz":
+		e.L.wat(sb, ind)
+		fmt.Fprintf(sb, "%si32.eqz\n", ind)
+	default:
+		e.L.wat(sb, ind)
+		e.R.wat(sb, ind)
+		fmt.Fprintf(sb, "%si32.%s\n", ind, e.E)
+	}
+}
+
+func ctlSeq(sb *strings.Builder, ss []CtlStmt, ind string) {
+	for i := range ss {
+		ss[i].wat(sb, ind)
+	}
+}
+
+func (st *CtlStmt) wat(sb *strings.Builder, ind string) {
+	switch st.S {
+	case "set":
+		st.E.wat(sb, ind)
+		fmt.Fprintf(sb, "%slocal.set $%s\n", ind, st.X)
+	case "br":
+		fmt.Fprintf(sb, "%sbr %d\n", ind, st.K)
+	case "brif":
+		st.E.wat(sb, ind)
+		fmt.Fprintf(sb, "%sbr_if %d\n", ind, st.K)
+	case "brtable":
+		st.E.wat(sb, ind)
+		fmt.Fprintf(sb, "%sbr_table", ind)
+		for _, k := range st.Ks {
+			fmt.Fprintf(sb, " %d", k)
+		}
+		fmt.Fprintf(sb, " %d\n", st.D)
+	case "ret":
+		fmt.Fprintf(sb, "%slocal.get $b\n%sreturn\n", ind, ind)
+	case "block":
+		fmt.Fprintf(sb, "%sblock\n", ind)
+		ctlSeq(sb, st.Body, ind+"\t")
+		fmt.Fprintf(sb, "%send\n", ind)
+	case "loop":
+		fmt.Fprintf(sb, "%sloop\n", ind)
+		// every entry of the loop body takes one unit of fuel; none left is a trap (termination of every generated program)
+		fmt.Fprintf(sb, "%s\tlocal.get $fuel\n%s\ti32.eqz\n%s\tif\n%s\t\tunreachable\n%s\tend\n", ind, ind, ind, ind, ind)
+		fmt.Fprintf(sb, "%s\tlocal.get $fuel\n%s\ti32.const 1\n%s\ti32.sub\n%s\tlocal.set $fuel\n", ind, ind, ind, ind)
+		ctlSeq(sb, st.Body, ind+"\t")
+		fmt.Fprintf(sb, "%send\n", ind)
+	case "if":
+		st.E.wat(sb, ind)
+		fmt.Fprintf(sb, "%sif\n", ind)
+		ctlSeq(sb, st.Th, ind+"\t")
+		fmt.Fprintf(sb, "%selse\n", ind)
+		ctlSeq(sb, st.El, ind+"\t")
+		fmt.Fprintf(sb, "%send\n", ind)
+	}
+}
+
+var ctlCount int
 
 // Case: what the executors see
 type Case struct {
@@ -170,6 +262,23 @@ func build(cases []SpecCase) (string, []Case) {
 			cs.Args = []string{}
 			cs.ArgTy = []string{}
 			cs.ResTy = t
+		case "ctl":
+			name = fmt.Sprintf("ctl_%05d", ctlCount)
+			ctlCount++
+			var sb strings.Builder
+			fmt.Fprintf(&sb, "\t(func $%s (export \"%s\") (param $a i32) (result i32) (local $b i32) (local $c i32) (local $fuel i32)\n\t\ti32.const 5\n\t\tlocal.set $fuel\n", name, name)
+			ctlSeq(&sb, c.Prog, "\t\t")
+			sb.WriteString("\t\tlocal.get $b\n\t)\n")
+			fns[name] = fnDef{name, sb.String()}
+			for _, a := range []string{"0", "1", "2"} {
+				r := c.Cases[a]
+				k := Case{Mod: "module", Fn: name, Args: []string{a}, ArgTy: []string{"i32"}, ResTy: "i32", Trap: r.Trap}
+				if r.Trap == "" {
+					k.Want = fmt.Sprint(uint32(int32(r.V)))
+				}
+				out = append(out, k)
+			}
+			continue
 		case "idx":
 			k := int(le(c.A))
 			cs.Mod = fmt.Sprintf("idx_%s_%d", c.Op, k)
